@@ -15,6 +15,25 @@ def main(argv=None) -> int:
     ap.add_argument("--seed", type=int, default=int(os.environ.get("VERIF_SEED", "0")))
     ap.add_argument("--replay", default=None)
     a = ap.parse_args(argv)
+    if a.replay:
+        # re-run exactly what a replay file recorded: same seed and tier, and first of all every recorded request on implementation and model
+        import json
+        from . import proto
+        try:
+            rp = json.load(open(a.replay))
+        except Exception as e:  # noqa: BLE001
+            print("cannot read replay file: " + repr(e), file=sys.stderr)
+            return 2
+        a.seed, a.tier = rp.get("seed", a.seed), rp.get("tier", a.tier)
+        lines = [m for m in rp.get("mismatches", []) if isinstance(m, dict) and m.get("line")]
+        if lines:
+            from . import impl
+            drv = proto.Driver()
+            for m in lines:
+                d = proto.dec_line(m["line"]) if not m["line"].endswith(")") or "...(+" not in m["line"] else None
+                model_now = drv.ask([m["line"]])[0] if "...(+" not in m["line"] else "(request was truncated in the replay file)"
+                impl_now = impl.run_case(d[0], d[1], m.get("stdout_encoding", "utf-8") if m.get("stdout_encoding") != "mixed" else "utf-8") if d else "(not directly replayable: rerunning the seeded check)"
+                print(f"REPLAY {m.get('corr', '')} [{m.get('tag', '')}]\n  request: {m['line'][:300]}\n  implementation now: {impl_now[:200]}\n  model now:          {model_now[:200]}\n  recorded: impl={str(m.get('impl'))[:120]} model={str(m.get('model'))[:120]}")
     from . import leangate
     from .framework import Check
 
